@@ -614,7 +614,13 @@ pub fn run_batch(check: &dyn Check, tier: Tier, seed: u64, cases: u64, nshards: 
                         // the hang limit is wall-clock: before blaming the case, run it alone; when it completes
                         // there the machine stalled (e.g. memory pressure from unrelated jobs) and the shard resumes AT it
                         let mut resume_at_culprit = false;
-                        if let (true, true, Some(c)) = (crashed, out.timed_out, culprit) {
+                        // (the same for a worker that got SIGKILL from outside - the out-of-memory killer when other jobs
+                        // fill the machine: nothing in a case can send it)
+                        let killed_from_outside = {
+                            use std::os::unix::process::ExitStatusExt;
+                            !out.timed_out && out.status.and_then(|s| s.signal()) == Some(9)
+                        };
+                        if let (true, true, Some(c)) = (crashed, out.timed_out || killed_from_outside, culprit) {
                             if stalls < 3 {
                                 let case = generate_case(check, seed, tier, c);
                                 if matches!(run_case_in_child(id, &case, hang), Ok(None)) {
